@@ -24,13 +24,15 @@ C_TOL = 16
 
 
 def top_singular_sq(J):
-    """lambda_max(J J^T) to 60 digits (for integer matrices whose spectrum is irrational)"""
+    """lambda_max(J J^T) to ~55 significant digits (relative), for matrices whose spectrum is irrational"""
     mpmath.mp.dps = 60
     G = gram(J)
     M = mpmath.matrix([[mpmath.mpf(x.numerator) / mpmath.mpf(x.denominator) for x in r] for r in G])
     ev = mpmath.eigsy(M, eigvals_only=True)
     lam = max(ev)
-    return Fr(int(lam * mpmath.mpf(10) ** 55), 10 ** 55)
+    if lam <= 0:
+        return Fr(0)
+    return Fr(int(lam.man)) * (Fr(2) ** int(lam.exp))
 
 
 def pref_vectors(rng, m):
